@@ -160,7 +160,9 @@ CLAIMED = {
                   "the setter writes the (normalised) value into the store under exactly the key the getter reads - nothing is "
                   "cached on the Python object, nothing else is written - so that every observation is a function of the HDF5 "
                   "content; that a new Section handle carries no cached parent; that the sweeper unlinks every deleted member "
-                  "(deleted things stay deleted); and that close() flushes. The step from there to the property - HDF5 reproduces "
+                  "(deleted things stay deleted); that close() flushes; and that the wrapper's attribute writer "
+                  "(H5Group.set_attr, body verified against h5py's AttributeManager operations) stores exactly the value "
+                  "given whatever was stored before. The step from there to the property - HDF5 reproduces "
                   "its content after close and reopen - is an assumption about libhdf5, not a proved clause.",
              note="Assumed: HDF5 persistence across close/reopen, h5py attribute type round trip. Stale-handle behaviour (an H5Group caches the bound h5py object), close / reopen of a file with every entity kind: bounded "
                   "battery C02/bounded/c02 only.", ref="7 C02"),
